@@ -229,6 +229,7 @@ class SimBackend(object):
         self.prefer = prefer
         self.xcheck = xcheck          # None or dict(rate, rng, stats)
         self.byz_provider = byz_provider
+        self.closure_provider = None
         self.keep_sets = keep_sets
         self.round = 0
         self.rounds = []              # per round record (dict)
@@ -460,6 +461,15 @@ class SimBackend(object):
                 k = idpos.get(id(v))
                 if k is not None and pairs[k] in want:
                     vals[v.name] = 1.0
+            # with -pc a project without students may come back as closed
+            closures = self.closure_provider() if self.closure_provider \
+                else []
+            used = set(p for p in M if p)
+            names = set(v.name for v in C.vs)
+            for var, pid in closures:
+                if var.name in names and pid not in used and \
+                        self.rng.random() < 0.7:
+                    vals[var.name] = 1.0
             lp.assignVarsVals(vals)
             lp.assignStatus(pulp.LpStatusOptimal, pulp.LpSolutionOptimal)
             self.clock.advance(d)
